@@ -29,7 +29,9 @@ TRUSTED = ["model: coq/theories/Effects.v; proofs EffectsProofs.v"]
 
 GRAPH_MODELS = ci.DAG_CLASSES + ci.CYC_CLASSES + ["MinErrorFlow"]
 OTHER = ["MinGenSet", "MinSetCover", "NumPathsOptimization"]
-KEYCODE = {"trusted_edges_for_safety": 0, "allow_empty_paths": 1, "optimize_with_safe_paths": 2, "optimize_with_safe_sequences": 3,
+EXT_KEY = "external_safe_paths"
+EXT_FINDING = "AbstractPathModelDAG:extends-caller-list:external_safe_paths"
+KEYCODE = {"external_safe_paths": 101, "trusted_edges_for_safety": 0, "allow_empty_paths": 1, "optimize_with_safe_paths": 2, "optimize_with_safe_sequences": 3,
            "optimize_with_safe_zero_edges": 4, "optimize_with_subpath_constraints_as_safe_sequences": 5,
            "optimize_with_safety_as_subpath_constraints": 6, "verif_user_key": 100}
 ALIASING = {"kLeastAbsErrors", "kMinPathError", "kFlowDecompCycles", "kLeastAbsErrorsCycles", "kMinPathErrorCycles", "MinFlowDecompCycles"}
@@ -114,6 +116,13 @@ class Shared:
                                "node": dict(([(zn, 0)] if zn else []) + [(ns[-1], rng.choice([0.5, 1]))])}
             self.starts[kind] = [ns[rng.randrange(len(ns))]]; self.ends[kind] = [ns[rng.randrange(len(ns))]]
         self.opts = {"verif_user_key": 1} if rng.random() < 0.75 else {}
+        # option VALUES owned by the caller: a list of safe paths (edge lists of the DAG; single non-ignored edges of a flow
+        # decomposition are safe), and the switch that turns safe lists into constraints
+        if rng.random() < 0.45:
+            des = [e for e in self.G["dag"].edges() if e not in self.ign["dag"]["edge"]]
+            self.opts["external_safe_paths"] = [[des[rng.randrange(len(des))]] for _ in range(rng.randint(1, 2))]
+        if rng.random() < 0.3:
+            self.opts["optimize_with_safety_as_subpath_constraints"] = True
         self.sopts = dict(ci.SOLVER_OPTIONS)
         self.k = {"dag": max(1, sd["k"] or 1), "cyc": max(1, sc["k"] or 1)}
         nums = sorted({rng.randint(1, 9) for _ in range(4)})
@@ -182,7 +191,9 @@ def kwargs_for(op, sh):
         if mode == "node": kw["flow_attr_origin"] = "node"
     if gcls in ci.HAS_K and cls != "NumPathsOptimization":
         kw["k"] = sh.k[kind] + (1 if gcls not in ci.IS_FD else 0)
-    if op["pass_opts"] and gcls != "MinErrorFlow":
+    # external_safe_paths names edges of the caller's DAG: it is only a valid option for edge-weighted DAG models
+    op["pass_opts_eff"] = bool(op["pass_opts"] and gcls != "MinErrorFlow" and not (EXT_KEY in sh.opts and mode == "node" and kind == "dag"))
+    if op["pass_opts_eff"]:
         kw["optimization_options"] = sh.opts
     if op["pass_sopts"]:
         kw["solver_options"] = sh.sopts
@@ -251,10 +262,10 @@ def model_cls_id(op):
     MinGenSet / MinSetCover take no such dict: sent as an operation that passes none)"""
     cls = op["cls"]
     if cls == "NumPathsOptimization":
-        return ci.CLS_ID[op["inner"]], op["pass_opts"] and op["solve"]
+        return ci.CLS_ID[op["inner"]], op.get("pass_opts_eff", False) and op["solve"]
     if cls in ("MinGenSet", "MinSetCover"):
         return ci.CLS_ID["MinErrorFlow"], False
-    return ci.CLS_ID[cls], op["pass_opts"] and cls != "MinErrorFlow"
+    return ci.CLS_ID[cls], op.get("pass_opts_eff", False)
 
 
 def run(ctx):
@@ -264,6 +275,8 @@ def run(ctx):
                 "lists; each argument is passed or omitted (shared defaults); non-trivial = at least two classes; distinct by the operation list")
     n_hist = ctx.budget(150, 3000)
     reqs = []; hists = []
+    # switch of the faithful model: the list-aliasing finding is open (summary of the code that keeps the caller's list) or fixed
+    ext_open = ctx.open_finding(EXT_FINDING) is not None
     for i in range(n_hist):
         rng = ctx.rng("history", i)
         try:
@@ -278,7 +291,10 @@ def run(ctx):
             kw = kwargs_for(op, sh)
             res, getter_ok, exc = run_op(op, kw)
             after = sh.snapshot()
-            steps.append({"op": op, "changed": diff_snap(before, after), "opts_keys": list(sh.opts.keys()), "result": res,
+            ext_grew = len(after["opts"].get(EXT_KEY, [])) != len(before["opts"].get(EXT_KEY, []))
+            only_ext = ext_grew and {k: v for k, v in after["opts"].items() if k != EXT_KEY} == {k: v for k, v in before["opts"].items() if k != EXT_KEY} \
+                and after["opts"][EXT_KEY][:len(before["opts"][EXT_KEY])] == before["opts"][EXT_KEY]
+            steps.append({"op": op, "changed": diff_snap(before, after), "opts_keys": list(sh.opts.keys()), "result": res, "ext_grew": ext_grew, "only_ext": only_ext,
                           "getter_ok": getter_ok, "exc": exc, "has_cons": bool(kw.get("subpath_constraints") or kw.get("subset_constraints"))})
             before = after
         # the last construction again, with fresh argument objects holding the INITIAL values
@@ -289,7 +305,7 @@ def run(ctx):
         for s in steps:
             cid, passes = model_cls_id(s["op"])
             mops.append([cid, passes, s["op"]["sup"], s["has_cons"], s["op"]["solve"]])
-        reqs.append("effects " + common.toks(len(init_keys), init_keys, len(ops), mops))
+        reqs.append("effects " + common.toks(ext_open, EXT_KEY in init["opts"], len(init_keys), init_keys, len(ops), mops))
         hists.append((i, ops, init, steps, res_fresh, exc_fresh))
     outs = ctx.model.run(reqs)
     for (i, ops, init, steps, res_fresh, exc_fresh), req, out in zip(hists, reqs, outs):
@@ -300,36 +316,46 @@ def run(ctx):
         replay = {"history": i, "ops": ops, "initial_options": canon(init["opts"]), "steps": canon([{k: v for k, v in s.items() if k != "result"} for s in steps]), "request": req, "model": out}
         if not out.startswith("OK"):
             ctx.report("model driver failed: " + out, replay, concrete=False); continue
-        model_keys = [[int(x) for x in part.split()] for part in out[2:].split("|")]
-        polluted = False
+        model_keys = [[int(x) for x in part.split(";")[0].split()] for part in out[2:].split("|")]
+        model_ext = [int(part.split(";")[1]) for part in out[2:].split("|")]
+        polluted = False; polluted_ext = False; prev_ext = 0
         for j, s in enumerate(steps):
             cls = s["op"]["cls"]; ctx.dist("class:" + cls)
             for a in ("node", "pass_ign", "pass_scal", "pass_starts"):
                 if s["op"][a]: ctx.dist("arg:" + a)
+            if s["changed"] and sorted(set(str(c) for c in s["changed"])) == ["opts"] and s["only_ext"]:
+                polluted_ext = True         # also within this very step: NumPathsOptimization builds several models from the same kwargs
             if s["exc"]:
                 ctx.count("E4_histories", "steps_raising")
-                ctx.report("a step of a history of valid constructions raised: %s (%s)" % (s["exc"], cls), dict(replay, step=j), concrete=False)
+                # after an earlier step extended the shared external_safe_paths list (foreign source_/sink_ edges), a later model may fail
+                ctx.report("a step of a history of valid constructions raised: %s (%s)" % (s["exc"], cls), dict(replay, step=j),
+                           key=("history:result-differs:external_safe_paths-extended" if polluted_ext else None), concrete=polluted_ext)
             # (1) the property, directly: nothing the caller passed, no default object, no class / module level object changed
             if s["changed"]:
-                polluted = True
                 what = sorted(set(str(c) for c in s["changed"]))
-                key = (cls + ":mutates:optimization_options") if (what == ["opts"] and cls in ALIASING) else None
+                if what == ["opts"] and s["only_ext"]:
+                    polluted_ext = True; key = EXT_FINDING
+                else:
+                    polluted = True
+                    key = (cls + ":mutates:optimization_options") if (what == ["opts"] and cls in ALIASING) else None
                 ctx.report("%s changed data it does not own: %s" % (cls, what[:6]), dict(replay, step=j), key=key, concrete=True)
             if not s["getter_ok"]:
                 ctx.report("repeated getter calls of %s returned different results" % cls, dict(replay, step=j), concrete=True)
             # (2) correspondence with the heap of Effects.v
             obs = [KEYCODE.get(k, 199) for k in s["opts_keys"]]
-            if obs == model_keys[j]:
+            model_grew = model_ext[j] != prev_ext; prev_ext = model_ext[j]
+            if obs == model_keys[j] and model_grew == s["ext_grew"]:
                 ctx.count("E4_histories", "heap_agreements")
             else:
                 ctx.count("E4_histories", "heap_disagreements")
-                ctx.report("E4 correspondence broken: optimization_options keys after step %d are %s, Effects.run gives %s" % (j, obs, model_keys[j]),
+                ctx.report("E4 correspondence broken: optimization_options keys after step %d are %s (external_safe_paths extended: %s), Effects.run_sw gives %s (extended: %s)" % (j, obs, s["ext_grew"], model_keys[j], model_grew),
                            dict(replay, step=j), concrete=False)
         # (3) history independence of the last model
         last = steps[-1]
         ctx.count("history_independence", "cases")
         if (last["result"], bool(last["exc"])) != (res_fresh, bool(exc_fresh)):
-            key = "history:result-differs:optimization_options-polluted" if polluted else None
+            key = ("history:result-differs:optimization_options-polluted" if polluted else
+                   ("history:result-differs:external_safe_paths-extended" if polluted_ext else None))
             ctx.report("the last model of the history (%s) differs from the same construction with fresh arguments: %s vs %s"
                        % (last["op"]["cls"], json.dumps(last["result"], default=str)[:300], json.dumps(res_fresh, default=str)[:300]),
                        replay, key=key, concrete=True)
